@@ -14,6 +14,9 @@ pub fn hash_source_ip(packet: &[u8]) -> usize {
             || (packet[12] == 0x86 && packet[13] == 0xDD))
     {
         14
+    } else if packet.len() >= 24 && packet[0] == 0x1e && packet[1] == 0x00 {
+        // NULL/loopback framing as the packet parser recognises it: 4-byte header, then IP
+        4
     } else {
         0 // Raw IP packet
     };
